@@ -22,8 +22,9 @@ fn main() {
     match args[1].as_str() {
         "rom" => println!("{}", json!(exhaust::rom_words())),
         "alu-check" => exhaust::alu_check(&args[2]),
-        "decode-check" => exhaust::decode_check(&args[2]),
-        "nextaddr-check" => exhaust::nextaddr_check(&args[2]),
+        "decode-check" => exhaust::decode_check(&args[2], args.get(3).map(|x| x == "mac").unwrap_or(false)),
+        "nextaddr-check" => exhaust::nextaddr_check(&args[2], args.get(3).map(|x| x == "sets").unwrap_or(false)),
+        "muldiv-term" => exhaust::muldiv_term(),
         "scenario" => scenario::run_script(&args[2], &args[3]),
         "bus-sig-check" => bussig::check(&args[2]),
         "board-check" => boardsig::check(&args[2]),
